@@ -23,7 +23,7 @@ TECHNIQUE = ("TLC enumeration of all admissible spectra (Pca.tla Spectral: arg-m
              "data with exactly those singular values built by the harness; TLC trace validation of the real PCA's axis order, eigenvalues, score/loading errors "
              "against criterion-implied bounds computed by TLC, and of paired permuted/rotated/rescaled runs (oracles: construction, long-double Jacobi, LAPACK dsyev)")
 LEVEL_TEXT = ("Sampled inputs with known truth: for TLC-enumerated separated spectra and shapes, matrices with exactly that SVD are fitted by the real PCA() under all 7 scalings "
-              "and data scales 1e-3..1e3; TLC validates per component that it sits on the true axis of the same index, carries its eigenvalue within TolEig, and that score and "
+              "and data magnitudes 1e-8..1e6 (scalings 0/-1; 1..1e3 for the normalising options); TLC validates per component that it sits on the true axis of the same index, carries its eigenvalue within TolEig, and that score and "
               "loading errors stay within the bound implied by the documented stopping rule; row/column permutations, rotations and rescalings must reproduce the transformed model.")
 LEVEL_NOTE = ("Exploration: spectra/shapes are enumerated exhaustively by TLC within the alphabet, but orthogonal factors, offsets, scalings and decades are sampled. Trusts TLC, "
               "the harness's construction of data with a known SVD, its long-double Jacobi solver (cross-checked against dsyev and the construction on every case), "
@@ -96,7 +96,7 @@ def _model_and_cases(ctx):
 def _draw(rng, key):
     sig2, n, c = key
     scaling = rng.choice(SCALINGS)
-    dec = rng.randint(-3, 3) if scaling in (-1, 0) else rng.randint(0, 3)
+    dec = rng.randint(-8, 6) if scaling in (-1, 0) else rng.randint(0, 3)
     return dict(sig2=list(sig2), n=n, c=c, scaling=scaling, dec=dec, tail=rng.randint(0, 2), seed=rng.randrange(1, 2 ** 30))
 
 
@@ -108,7 +108,7 @@ def _plan(ctx, cases):
         # the small-eigenvalue corner must be present in every run (that is where finding F11 lives)
         for k in rng.sample([k for k in cases if len(k[0]) >= 2], 24):
             d = _draw(rng, k)
-            d["scaling"], d["dec"] = rng.choice([0, -1]), rng.choice([-3, -2])
+            d["scaling"], d["dec"] = rng.choice([0, -1]), rng.choice([-8, -6, -5, -3, -2])
             plan.append(d)
     else:
         plan = [_draw(rng, k) for k in cases]
@@ -191,7 +191,7 @@ def _account(ctx, chunks, plan_by_seed):
     if ncase == 0:
         raise InfraError("c02 harness produced no cases")
     cs = [_case_of(b) for ev in chunks for b in tlc.split_blocks(ev)]
-    classes = dict(two_or_more_compared=sum(1 for c, s2 in cs if c and _ncmp(s2) >= 2), small_eigenvalues=sum(1 for c, s2 in cs if c and c["dec"] <= -2),
+    classes = dict(two_or_more_compared=sum(1 for c, s2 in cs if c and _ncmp(s2) >= 2), small_eigenvalues=sum(1 for c, s2 in cs if c and c["dec"] <= -2), tiny_magnitude=sum(1 for c, s2 in cs if c and c["dec"] <= -6), large_magnitude=sum(1 for c, s2 in cs if c and c["dec"] >= 4),
                    rotated=sum(1 for ev in chunks for e in ev if e["e"] == "Pair" and e["kind"] == "rot"), shrunk=sum(1 for ev in chunks for e in ev if e["e"] == "Scale" and e["cexp"] < 0))
     for sc in range(-1, 6):
         classes["scaling_%d" % sc] = sum(1 for c, s2 in cs if c and c["scaling"] == sc)
@@ -281,9 +281,9 @@ def _binding(ctx, chunks):
 
 def run(ctx):
     ctx.assumptions += [
-        "spectra and shapes are enumerated by TLC; orthogonal factors, offsets, scaling option, data decade (1e-3..1e3 for scalings 0/-1, 1..1e3 otherwise) and tail are sampled (seeded): level exploration",
+        "spectra and shapes are enumerated by TLC; orthogonal factors, offsets, scaling option, data decade (1e-8..1e6 for scalings 0/-1 - absolute magnitude of the data, further rescaled by 1e+-3 in the paired runs - and 1..1e3 otherwise) and tail are sampled (seeded): level exploration",
         "truth: the constructed SVD (scaling 0/-1) or the harness's long-double cyclic Jacobi solver on E'E (scalings 1..5), each case cross-checked against LAPACK dsyev and the construction (Oracle event, 1e-6 of lambda_1)",
-        "E = MatrixPreprocess(X) is the preprocessed matrix (C10); inputs whose column scale falls into the fit/apply guard zone (< 1.2e-2) or whose rescaled column sums fall under MatrixColAverage's absolute 1e-6 test are not generated",
+        "E = MatrixPreprocess(X) is the preprocessed matrix (C10); inputs whose column scale falls into the fit/apply guard zone (< 1.2e-2) are not generated",
         "bounds: K = 30, eps = sqrt(n*1e-10); loadings eps*sqrt(rho)/(1-rho), scores eps*rho/(1-rho), floor 0.05, leakage of earlier loading errors (LedgerArith.tla); eigenvalues TolEig relative + 1e-9*ss0",
         "components are judged up to the first squared singular ratio > 0.7225 (the property's quantifier), at most 6",
     ]
